@@ -372,6 +372,17 @@ Definition untag (l : list Z) : vv := untag_loop l (-1) [].
 Definition fragHigh := 4 * 2^20.  Definition fragLow := 3 * 2^20.  Definition fragTimeout := 30000000000.
 Definition state0 : state := mkSt (Frag.newFragmentation fragHigh fragLow fragTimeout) 1.
 
+(* the fragment branch: (state, Some packet to go on with | None = stored, not complete) *)
+Definition ipv4_fragment (st : state) (h : list Z) (fo : Z) (more : bool) (v1 : vv) : option (state * option vv) :=
+  if more || negb (fo =? 0) then
+    let last := w16 (w16 (fo + w16 (vsize v1)) - 1) in
+    let '(f', (res, done, panicked)) :=
+      Frag.fprocess (s_frag st) (Frag.ipv4FragmentHash 0 h) fo last more (tag_views v1 (s_serial st)) 0 in
+    let st' := mkSt f' (s_serial st + Z.of_nat (length v1)) in
+    if panicked then None
+    else if done then Some (st', Some (untag res)) else Some (st', None)
+  else Some (st, Some v1).
+
 Definition ipv4_handle (c : config) (st : state) (v : vv) : option (state * out) :=
   let h := vfirst v in
   valid <- ipv4_isValid h (vsize v) ;;
@@ -381,15 +392,7 @@ Definition ipv4_handle (c : config) (st : state) (v : vv) : option (state * out)
   let v1 := vv_capLength (vv_trimFront v hlen) (tlen - hlen) in
   fl <- ipv4_flags h ;;
   fo <- ipv4_fragmentOffset h ;;
-  let more := negb (fl mod 2 =? 0) in
-  r <- (if more || negb (fo =? 0) then
-          let last := w16 (w16 (fo + w16 (vsize v1)) - 1) in
-          let '(f', (res, done, panicked)) :=
-            Frag.fprocess (s_frag st) (Frag.ipv4FragmentHash 0 h) fo last more (tag_views v1 (s_serial st)) 0 in
-          let st' := mkSt f' (s_serial st + Z.of_nat (length v1)) in
-          if panicked then None
-          else if done then Some (st', Some (untag res)) else Some (st', None)
-        else Some (st, Some v1)) ;;
+  r <- ipv4_fragment st h fo (negb (fl mod 2 =? 0)) v1 ;;
   match r with
   | (st', None) => Some (st', out0 kFragStored)
   | (st', Some v2) =>
